@@ -26,6 +26,50 @@ def under_lock(pm, node):
     return None
 
 
+def check_flags(ctx, prog, lr):
+    """The switch that makes every enforcement call load (use_conf) is
+    never lowered during a reload: a concurrent call would skip its own load
+    step, including the merge of registered defaults."""
+    from ..dte import Table, inline_self_methods
+    from ..load_model import roles
+    from ..paths import const_truth
+    r = roles(ctx)
+    sr = prog.func(ENF + '.set_rules')
+    n = 0
+    from ..load_model import load_table
+    for fn, inl in ((r.loader, {sr.qual}), (r.load_body, set())):
+        t = Table(prog, fn, inline=inline_self_methods(prog, only=inl),
+                  max_paths=100000) if inl else load_table(ctx)
+        seen = set()
+        for p in t.paths:
+            for e in p.events:
+                if e.kind != 'store' or U(e.node) != 'self.use_conf':
+                    continue
+                v = t.expand(e.value)
+                ct = const_truth(v)
+                truthy = ct is True
+                if ct is None:
+                    # known truthy on this path?
+                    truthy = any(c.kind == 'test' and c.pol and U(
+                        c.expr) == U(v) for c in p.conds[:e.nconds])
+                key = (e.line, U(v), truthy)
+                if key in seen:
+                    continue
+                seen.add(key)
+                n += 1
+                ctx.ob('C20.FLAGS', truthy, '%s:%d' % (
+                    ctx.where(fn.module, fn.node).split(':')[0], e.line),
+                    e.frame or fn.qual, 'self.use_conf = %s' % U(v),
+                    'the load switch is only ever raised during a reload'
+                    if truthy else
+                    'during a reload the load switch use_conf is set to %s '
+                    '(not known to be true): until it is raised again a '
+                    'concurrent enforcement call skips its whole load step '
+                    'and decides on a rule set without registered defaults'
+                    % U(v))
+    ctx.floor('C20.FLAGS', n, 1, 'writes of the load switch')
+
+
 def check(ctx):
     prog = ctx.prog
     ctx.use(POLICY, CHECKS)
@@ -43,6 +87,29 @@ def check(ctx):
                'schedule recorded in DESIGN.md')
     lr = prog.func(ENF + '.load_rules')
     region = prog.region(lr)
+    enf_f = prog.func(ENF + '.enforce')
+    # shared stores: the two rule stores plus every other attribute that
+    # the reload writes and the evaluation side reads
+    written = set()
+    for q, f in region.items():
+        if f.cls is not None and f.cls.qual == ENF:
+            for e in effects_of(f):
+                if e.path.startswith('self.'):
+                    written.add('.'.join(e.path.split('[')[0].split('.')[:2]))
+    read = set()
+    for q, f in prog.region(enf_f, stop=(lr.qual,)).items():
+        for n in walk_no_nested(f.node):
+            if isinstance(n, ast.Attribute) and isinstance(
+                    n.ctx, ast.Load) and isinstance(n.value, ast.Name):
+                if n.value.id == 'self' and f.cls is not None and \
+                        f.cls.qual == ENF:
+                    read.add('self.' + n.attr)
+                elif n.value.id == 'enforcer':
+                    read.add('self.' + n.attr)
+    global STORES
+    extra = sorted((written & read) - set(STORES) - {'self.conf'})
+    stores = tuple(STORES) + tuple(extra)
+    ctx.extra['shared_stores'] = list(stores)
     writes = []
     for q, f in sorted(region.items()):
         if f.cls is None or f.cls.qual != ENF:
@@ -50,7 +117,7 @@ def check(ctx):
         pm = parent_map(f.node)
         for e in effects_of(f):
             store = None
-            for s in STORES:
+            for s in stores:
                 if e.path == s or e.path.startswith(s + '.') or \
                         e.path.startswith(s + '['):
                     store = s
@@ -116,6 +183,7 @@ def check(ctx):
                                }.get(kind, 'mutated in place (%s)' % kind)),
                    witness={'sites': [getattr(x[1].node, 'lineno', None)
                                       for x in lst]})
+    check_flags(ctx, prog, lr)
     for f, n, lock in readers:
         ctx.sample('reader %s %s:%d %s' % (f.qual, f.module.path.split(
             '/')[-1], n.lineno, U(n)))
